@@ -167,7 +167,7 @@ def run(ctx):
     if grog:
         for w in range(12 if quick else 60):
             bad_corr += cli_workspace(ctx, grog, rng, w, nontrivial, cli_stats)
-        for hcase in range(8 if quick else 40):
+        for hcase in range(12 if quick else 60):
             cli_history(ctx, grog, rng, hcase, cli_stats)
     cov["cli"] = cli_stats
     cov["distinct_nontrivial"] = len(nontrivial)
@@ -364,6 +364,10 @@ def cli_history(ctx, grog, rng, hcase, stats):
     ws = os.path.join(scratch, "ws")
     trace = os.path.join(scratch, "trace.log")
     patterns = G.gen_input_patterns(rng, nodes, own=(1, 2), reach_p=0.6, files=FILES[:3])
+    # sometimes the package definition file is itself a declared input of one of its targets (a lint / format check of BUILD.json)
+    lints = [i for i in patterns if rng.random() < 0.25]
+    for i in lints:
+        patterns[i] = patterns[i] + ["BUILD.json"]
     G.write_workspace(ws, nodes, es, inputs=patterns)
     G.populate_files(ws, nodes, files=FILES[:3])
     inputs = G.resolve_inputs(ws, nodes, patterns)
@@ -386,33 +390,60 @@ def cli_history(ctx, grog, rng, hcase, stats):
         return
     multi = sorted(f for f, pk in G.owner_packages(nodes, inputs).items() if len(pk) >= 2)
     odd = sorted({os.path.normpath(os.path.join(nodes[k]["pkg"], x)) for k, fl in inputs.items() for x in fl if os.path.normpath(x) != x})
-    r = rng.random()
-    if odd and r < 0.45:
-        f = rng.choice(odd)            # a file that some target names with a non-canonical spelling (./x, d/../x, a//b, x/.)
-        stats["histories_noncanonical_input"] = stats.get("histories_noncanonical_input", 0) + 1
-    elif multi and r < 0.85:
-        f = rng.choice(multi)          # a file of a nested package directory that is also an input of an enclosing package's target
-        stats["histories_multi_package_file"] = stats.get("histories_multi_package_file", 0) + 1
+    edit_kind, redefined = "input", None
+    r0 = rng.random()
+    if r0 < 0.45:
+        # edit of a package definition file. (a) formatting only: other indentation, targets and aliases in another order, trailing blank
+        # lines — every definition is unchanged, so only targets that declare BUILD.json as an input may re-execute; (b) the command of ONE
+        # target changes: that target (and its dependants) may re-execute as well, nothing else.
+        pkgs_t = sorted({n["pkg"] for n in nodes if n["target"]})
+        lint_pkgs = sorted({nodes[i]["pkg"] for i in lints})
+        pkg = rng.choice(lint_pkgs) if lint_pkgs and rng.random() < 0.6 else rng.choice(pkgs_t)
+        f = os.path.normpath(os.path.join(pkg, "BUILD.json"))
+        body = _json.load(open(os.path.join(ws, f)))
+        rng.shuffle(body["targets"])
+        rng.shuffle(body["aliases"])
+        if r0 < 0.3:
+            edit_kind = "buildfile-format"
+        else:
+            edit_kind = "buildfile-one-definition"
+            t = rng.choice(body["targets"])
+            t["command"] = t["command"] + " ; true"
+            redefined = "//" + pkg + ":" + t["name"]
+        with open(os.path.join(ws, f), "w") as fh:
+            fh.write(_json.dumps(body, indent=rng.choice([0, 3, None])) + "\n\n  \n")
+        stats["histories_" + edit_kind] = stats.get("histories_" + edit_kind, 0) + 1
     else:
-        i = rng.choice(sorted(k for k in inputs if inputs[k]))
-        f = os.path.normpath(os.path.join(nodes[i]["pkg"], rng.choice(inputs[i])))
-    with open(os.path.join(ws, f), "a") as fh:
-        fh.write("edited\n")
+        r = rng.random()
+        if odd and r < 0.45:
+            f = rng.choice(odd)            # a file that some target names with a non-canonical spelling (./x, d/../x, a//b, x/.)
+            stats["histories_noncanonical_input"] = stats.get("histories_noncanonical_input", 0) + 1
+        elif multi and r < 0.85:
+            f = rng.choice(multi)          # a file of a nested package directory that is also an input of an enclosing package's target
+            stats["histories_multi_package_file"] = stats.get("histories_multi_package_file", 0) + 1
+        else:
+            i = rng.choice(sorted(k for k in inputs if inputs[k]))
+            f = os.path.normpath(os.path.join(nodes[i]["pkg"], rng.choice(inputs[i])))
+        with open(os.path.join(ws, f), "a") as fh:
+            fh.write("edited\n")
     open(trace, "w").close()
     rc, _, err, _ = G.run_grog(grog, ["build", "//..."], ws, env, timeout=120)
     executed = set(l.strip() for l in open(trace) if l.strip())
     owners = G.run_grog(grog, ["owners", f if rng.random() < 0.5 else G.respell(rng, f, existing_dir="zz")], ws, env)[1]
     allowed = set(owners)
-    for o in owners:
-        allowed |= set(G.run_grog(grog, ["rdeps", "-t", o], ws, env)[1])
+    for o in owners + ([redefined] if redefined else []):
+        allowed |= {o} | set(G.run_grog(grog, ["rdeps", "-t", o], ws, env)[1])
     stats["histories"] += 1
     stats["executed_after_edit"] += len(executed)
     ctx.coverage["evaluations"] += 1
     if rc != 0 or not executed <= allowed:
-        ctx.violation("after editing one file a target outside owners(f) ∪ rdeps -t(owners f) re-executed",
-                      {"kind": "oracle", "oracle": "edit predicts rebuild", "file": f, "executed": sorted(executed), "owners": owners, "allowed": sorted(allowed),
+        ctx.violation("after editing one file a target outside owners(f) ∪ rdeps -t(owners f) re-executed" if edit_kind == "input" else
+                      "after a " + ("formatting-only edit" if edit_kind == "buildfile-format" else "one-definition edit") + " of a package definition file, targets whose "
+                      "definition and inputs are unchanged (not owners of the file, not dependants of an owner or of the redefined target) re-executed",
+                      {"kind": "oracle", "oracle": "edit predicts rebuild", "edit": edit_kind, "redefined": redefined, "file": f, "executed": sorted(executed), "owners": owners, "allowed": sorted(allowed),
                        "rc": rc, "nodes": nodes, "edges": es, "declared_inputs": {str(k): v for k, v in patterns.items()},
-                       "inputs": {str(k): v for k, v in inputs.items()}}, signature="edit-reexecutes-outside-owners-rdeps")
+                       "inputs": {str(k): v for k, v in inputs.items()}},
+                      signature="edit-reexecutes-outside-owners-rdeps" if edit_kind == "input" else "buildfile-edit-reexecutes-unchanged-targets")
     if owners and not set(owners) <= executed:
         ctx.notes.append(f"history {hcase}: owner(s) {sorted(set(owners) - executed)} of the edited file did not re-execute")
 
